@@ -10,6 +10,7 @@
 #include <memory>
 #include <string>
 #include <vector>
+#include <unistd.h>
 
 namespace vf {
 
@@ -295,11 +296,18 @@ static inline bool read_file(const std::string &path, std::string &out) {
 	fclose(f);
 	return true;
 }
+// atomic: several workers may report the same violation class at once
 static inline bool write_file(const std::string &path, const std::string &data) {
-	FILE *f = fopen(path.c_str(), "wb");
+	char suffix[64];
+	snprintf(suffix, sizeof suffix, ".tmp.%ld", (long)getpid());
+	std::string tmp = path + suffix;
+	FILE *f = fopen(tmp.c_str(), "wb");
 	if (!f) return false;
 	bool ok = fwrite(data.data(), 1, data.size(), f) == data.size();
-	return fclose(f) == 0 && ok;
+	ok = fclose(f) == 0 && ok;
+	if (ok) ok = rename(tmp.c_str(), path.c_str()) == 0;
+	else remove(tmp.c_str());
+	return ok;
 }
 static inline std::string hex64(uint64_t v) {
 	char b[20];
